@@ -22,7 +22,7 @@ class Case:
     pass
 
 
-def build_model(rng, lane, idx, min_states=1, max_states=4, max_params=4, time_dep=True):
+def build_model(rng, lane, idx, min_states=1, max_states=4, max_params=4, time_dep=True, int_times=True):
     from pygom.model import ode_utils
     c = Case()
     if lane == "catalogue":
@@ -51,6 +51,12 @@ def build_model(rng, lane, idx, min_states=1, max_states=4, max_params=4, time_d
     else:
         tt = np.array(sorted(rng.uniform(0.03 * c.horizon, c.horizon) for _ in range(n)))
         c.times = tt[np.concatenate([[True], np.diff(tt) > 2e-3 * c.horizon])]
+    # observation times as whole numbers in an INTEGER dtype (days 1..K) with a fractional initial time
+    if int_times and c.horizon >= 4 and rng.random() < 0.2:
+        K = min(int(c.horizon), 12)
+        c.times = np.arange(1, K + 1)
+        c.t0 = 0.5
+        c.classes = list(c.classes) + ["integer-times-fractional-t0"]
     c.m.parameters = list(c.theta)
     c.m.initial_values = (list(c.x0), c.t0)
     return c
@@ -234,6 +240,27 @@ def disturb_with_sibling(rng, c):
     finally:
         c.target_param, c.target_state = saved
     return calls
+
+
+PRIOR_CALLS = ["cost", "residual", "sensitivity", "gradient", "jac", "jtj", "fisher_information", "hessian", "diff_loss"]
+
+
+def prior_calls(rng, c, obj, counters, k=(0, 3)):
+    """What a session does with a loss object before the call under judgement: 0-3 other public evaluation methods at nearby parameter
+    values (results ignored, exceptions ignored - they are judged where they belong).  No call may leave anything behind that changes a
+    later result."""
+    done = []
+    for name in rng.sample(PRIOR_CALLS, rng.randint(*k)):
+        th = np.array([v * rng.uniform(0.9, 1.1) for v in free_theta(c, c.theta)], dtype=float)
+        try:
+            with contextlib.redirect_stdout(io.StringIO()), np.errstate(all="ignore"):
+                getattr(obj, name)(th)
+            done.append(name)
+            counters["prior_call_" + name] = counters.get("prior_call_" + name, 0) + 1
+        except Exception:
+            counters["prior_call_raised"] = counters.get("prior_call_raised", 0) + 1
+    counters["prior_calls"] = counters.get("prior_calls", 0) + len(done)
+    return done
 
 
 def free_theta(c, theta):
